@@ -17,7 +17,7 @@ func init() {
 		Name:  "ERRPRED",
 		Doc:   "final-error predicate = type identity at the last position everywhere; Result literals; Len/Out arithmetic",
 		Run:   runErrpred,
-		Floor: map[string]int{"ERRPRED": 4, "RESULTLIT": 3, "LEN": 3},
+		Floor: map[string]int{"ERRPRED": 5, "RESULTLIT": 3, "LEN": 3},
 	})
 }
 
@@ -90,6 +90,40 @@ func runErrpred(c *Ctx) {
 				}
 			}
 		})
+	}
+
+	// Err|exact-conditions: the final output is reported as the error under exactly the reviewed conditions
+	if em := p.Method(p.Arg, "Result", "Err"); em != nil {
+		c.R.Func(core.FuncName(em))
+		for _, r := range core.Returns(em) {
+			ta, isTA := r.Results[0].(*ssa.TypeAssert)
+			if !isTA {
+				continue
+			}
+			extra := ""
+			seen := map[string]bool{}
+			for _, l := range core.Lits(core.Guards(r.Block())) {
+				switch {
+				case l.Kind == "cmp" && l.Op == token.EQL && l.Pol && (core.IsNilConst(l.X) || core.IsNilConst(l.Y)) &&
+					(strings.HasSuffix(core.Path(l.X), ".buildErr") || strings.HasSuffix(core.Path(l.Y), ".buildErr")):
+					seen["no-resolution-error"] = true
+				case core.LitImpliesGreater(l, 0) && strings.HasPrefix(core.Path(l.X), "builtin.len("):
+					seen["has-outputs"] = true
+				case l.Kind == "call" && l.Callee == core.RVIsValid && l.Pol:
+					seen["final-valid"] = true
+				case l.Kind == "cmp" && l.Op == token.EQL && l.Pol && (isErrT(l.X) || isErrT(l.Y)):
+					seen["final-is-error-type"] = true
+				case l.Kind == "cmp" && l.Op == token.EQL && !l.Pol && (core.IsNilConst(l.X) || core.IsNilConst(l.Y)) && (l.X == ta.X || l.Y == ta.X):
+					seen["interface-non-nil"] = true
+				default:
+					extra = l.String()
+				}
+			}
+			okk := extra == "" && seen["no-resolution-error"] && seen["final-is-error-type"] && seen["interface-non-nil"]
+			c.R.Add("ERRPRED", "Result.Err|exact-conditions", core.FuncName(em), p.InstrPos(r), okk,
+				"the final output is returned as the call's error exactly when there is no resolution error, its static type is `error` and its interface value is non-nil — no further condition (a typed-nil or otherwise 'empty-looking' error is still an error)",
+				ternary(extra == "", fmt.Sprintf("conditions: %v", seen), "additional condition: "+extra))
+		}
 	}
 
 	// RESULTLIT: every Result composite literal sets exactly one of out / buildErr
